@@ -158,6 +158,9 @@ func (t *Ty) Key(p *Program) string {
 // (full package paths), which is what wire puts in diagnostics.
 func (t *Ty) Str(p *Program) string {
 	switch t.K {
+	case "basic":
+		// as spelled (Key canonicalises rune/byte/any)
+		return t.Name
 	case "named":
 		s := p.ImportPath(t.Decl.Pkg) + "." + t.Decl.Name
 		if t.Decl.Alias {
